@@ -1,3 +1,33 @@
-From LV Require Import Base.Bytes Model.HeaderEnc.
-Theorem C12_placeholder : True. Proof. exact I. Qed.
-Print Assumptions C12_placeholder.
+(* C12  Header text survives encoding.  Statements only.
+   What is PROVED here is the part about encoded-words; the full round trip
+   decode_unstructured (encode v) = v is established by running the extracted reader on the
+   implementation's output (exhaustive small alphabet + families), see DESIGN.md. *)
+From Coq Require Import Strings.String.
+From LV Require Import Base.Bytes Base.Str Base.Base64 Model.HeaderEnc Spec.Rfc2047 Proofs.Rfc2047Proofs
+  Proofs.Base64Proofs.
+
+(* Every encoded-word the encoder writes - "=?utf-8?b?" base64(word) "?=" for a piece of at most
+   45 bytes - is a valid RFC 2047 encoded-word on its own, is at most 75 characters long, and a
+   reader decodes it to exactly the bytes that were put into it. *)
+Theorem C12_words_valid : forall w : bytes, bytes_ok w = true -> (length w <= 45)%nat ->
+  decode_word (ENC_START ++ b64enc w ++ ENC_END) = Some w /\
+  (length (ENC_START ++ b64enc w ++ ENC_END) <= 75)%nat.
+Proof. exact encoded_word_decodes. Qed.
+
+(* the pieces cut by rfc2047::encode never exceed the bound asked for (<= 45 by construction:
+   (76 - 14 - line_len) / 4 * 3 <= 45) *)
+Theorem C12_piece_bound : forall (s : bytes) (m : nat), (length (trunc_go s m) <= m)%nat.
+Proof. exact trunc_go_length. Qed.
+
+Theorem C12_b64_roundtrip : forall l : bytes, bytes_ok l = true -> b64dec (b64enc l) = Some l.
+Proof. exact b64_roundtrip. Qed.
+
+Example C12_example_word : decode_word (bs "=?utf-8?b?w6kgIMOp?=") = Some [195; 169; 32; 32; 195; 169].
+Proof. vm_compute. reflexivity. Qed.
+Example C12_example_rt :
+  decode_unstructured (bs "=?utf-8?b?w6kgIMOp?= plain") = [195; 169; 32; 32; 195; 169; 32] ++ bs "plain".
+Proof. vm_compute. reflexivity. Qed.
+
+Print Assumptions C12_words_valid.
+Print Assumptions C12_piece_bound.
+Print Assumptions C12_b64_roundtrip.
